@@ -623,7 +623,16 @@ OTHER_NAMES = ["X", "Y", "Z", "H", "I", "S", "SX", "T", "RX", "RY", "RZ", "RH", 
                "CNOT", "CZ", "SWAP", "ISWAP", "CPHASE", "XX", "YY", "ZZ", "XY", "MS"]
 
 
+def _near_special(rng):
+    """a multiple of pi/2 (up to a few turns) missed by 1e-7 .. 1e-3: an angle that an "is this rotation trivial /
+    a Clifford / a multiple of 2 pi" test made with a tolerance takes for the special one, while the gate differs
+    from the special one by far more than the oracle's tolerance"""
+    return rng.randint(-8, 8) * math.pi / 2 + rng.choice([1, -1]) * rng.choice([1e-3, 3e-5, 5e-5, 1e-6, 1e-7])
+
+
 def rand_u3_angles(rng):
+    if rng.random() < 0.15:
+        return tuple(_near_special(rng) if rng.random() < 0.6 else rng.uniform(-6.3, 6.3) for _ in range(3))
     r = rng.random()
     theta = rng.choice([0.0, math.pi / 2, math.pi, -math.pi / 3, 2 * math.pi]) if rng.random() < 0.3 else rng.uniform(-6.3, 6.3)
     if r < 0.12:
